@@ -429,3 +429,26 @@ func (p *Program) effectiveArgs(fi *FuncInfo, c *ast.CallExpr, idx int, depth in
 	}
 	return []argSite{{fi, c, arg}}
 }
+
+// onlyCalledWithin: every static reference to fi is a call from one of the given functions.
+func (p *Program) onlyCalledWithin(fi *FuncInfo, within []*FuncInfo) bool {
+	if fi.Obj == nil || fi.Obj.Exported() || p.usedAsValue(fi) {
+		return false
+	}
+	in := map[*FuncInfo]bool{}
+	for _, w := range within {
+		in[w] = true
+	}
+	ok := true
+	for _, caller := range p.SortedFuncs() {
+		if caller.Decl.Body == nil {
+			continue
+		}
+		for _, c := range callsIn(caller.Decl.Body) {
+			if fn := calleeOf(caller.Pkg.TypesInfo, c); fn != nil && p.FuncOf(fn) == fi && !in[caller] {
+				ok = false
+			}
+		}
+	}
+	return ok
+}
